@@ -3,6 +3,7 @@ package sim
 import (
 	"bufio"
 	"encoding/json"
+	"fmt"
 	"os"
 	"strconv"
 	"strings"
@@ -60,7 +61,14 @@ func RunJob(j *Job, run func(t *Tape, profile, tier string) *RunResult) error {
 		}
 		return bw.Flush()
 	}
+	if f := os.Getenv("VERIF_LOGDUMP"); f != "" {
+		// (debugging aid for the determinism self-test: every event of every run, in order)
+		Dump, _ = os.Create(f)
+	}
 	begin := func(run uint64) {
+		if Dump != nil {
+			fmt.Fprintf(Dump, "=== run %d\n", run)
+		}
 		enc.Encode(map[string]uint64{"begin": run})
 		bw.Flush()
 	}
